@@ -560,11 +560,16 @@ Proof.
   now rewrite (pair_spec_flip Ip d1 (snd p)).
 Qed.
 
-Lemma pair_spec_sym Ip d1 d2 : (forall x y, Ip x y = Ip y x) -> pair_spec Ip d1 d2 = pair_spec Ip d2 d1.
+Lemma pair_spec_sym_on Ip d1 d2 :
+  (forall t1 t2, In t1 d1 -> In t2 d2 -> Ip (t_g t1) (t_g t2) = Ip (t_g t2) (t_g t1)) ->
+  pair_spec Ip d1 d2 = pair_spec Ip d2 d1.
 Proof.
-  intros H. rewrite pair_spec_flip. unfold pair_spec. apply fsum_ext_in; intros t1 _.
-  apply fsum_ext_in; intros t2 _. now rewrite H.
+  intros H. rewrite pair_spec_flip. unfold pair_spec. apply fsum_ext_in; intros t2 H2.
+  apply fsum_ext_in; intros t1 H1. now rewrite (H t1 t2 H1 H2).
 Qed.
+
+Lemma pair_spec_sym Ip d1 d2 : (forall x y, Ip x y = Ip y x) -> pair_spec Ip d1 d2 = pair_spec Ip d2 d1.
+Proof. intros H. apply pair_spec_sym_on. intros. apply H. Qed.
 
 Lemma pair_spec_maps {A B} Ip (f : A -> pterm) (g : B -> pterm) la lb :
   pair_spec Ip (map f la) (map g lb)
@@ -858,7 +863,8 @@ Proof.
 Qed.
 
 Lemma two_symm_blocks_full {D} (f : D -> D -> F) n (ds : nat -> list D) :
-  (forall a b, f a b = f b a) -> (forall i, (i < n)%nat -> ds i <> []) ->
+  (forall i j a b, (i < n)%nat -> (j < n)%nat -> In a (ds i) -> In b (ds j) -> f a b = f b a) ->
+  (forall i, (i < n)%nat -> ds i <> []) ->
   two_symm_blocks 0 n (fun i j => map (fun a => map (f a) (ds j)) (ds i))
   = map (fun a => map (f a) (concat (mk n ds))) (concat (mk n ds)).
 Proof.
@@ -868,7 +874,8 @@ Proof.
   rewrite <- (hcat_outer f (ds i) (mk (S n') ds)) by (unfold mk; cbn; discriminate).
   rewrite map_mk'. f_equal. apply mk_ext; intros j Hj.
   destruct (Nat.leb i j); [reflexivity|].
-  rewrite transpose_outer by (now apply Hne). apply map_ext; intros b. apply map_ext; intros a. apply Hsym.
+  rewrite transpose_outer by (now apply Hne). apply map_ext_in; intros b Hb. apply map_ext_in; intros a Ha.
+  apply (Hsym j i a b Hj Hi Ha Hb).
 Qed.
 
 (* number of functions of a shell: segments x (components | spherical rows) *)
@@ -908,9 +915,38 @@ Qed.
 Lemma descr_basis_mk basis : descr_basis basis = concat (mk (length basis) (fun i => descr (nth i basis dshell))).
 Proof. unfold descr_basis. now rewrite (map_as_mk descr basis dshell). Qed.
 
+(* the exponents of the terms of a shell's descriptors are the shell's exponents *)
+Definition dexps_in (s : shell F) (d : fdesc) : Prop := forall t, In t d -> In (g_a (t_g t)) (s_exps s).
+
+Lemma cart_desc_exps s m ic : dexps_in s (cart_desc s m ic).
+Proof.
+  intros t Ht. unfold cart_desc in Ht. apply in_map_iff in Ht. destruct Ht as [[alpha crow] [<- Hin]].
+  cbn [t_g g_a fst]. eapply in_combine_l. exact Hin.
+Qed.
+
+Lemma dcomb_exps s trow ds : (forall d, In d ds -> dexps_in s d) -> dexps_in s (dcomb trow ds).
+Proof.
+  intros H t Ht. unfold dcomb in Ht. apply in_concat in Ht. destruct Ht as [l [Hl Ht]].
+  apply in_map_iff in Hl. destruct Hl as [[c d] [<- Hcd]]. cbn [fst snd] in Ht.
+  unfold dscale in Ht. apply in_map_iff in Ht. destruct Ht as [t' [<- Ht']]. cbn [t_g].
+  apply (H d); [|exact Ht']. eapply in_combine_r. exact Hcd.
+Qed.
+
+Lemma descr_exps s d : In d (descr s) -> dexps_in s d.
+Proof.
+  intros Hd. rewrite descr_mk in Hd. apply in_concat in Hd. destruct Hd as [l [Hl Hd]].
+  unfold mk in Hl. apply in_map_iff in Hl. destruct Hl as [m [<- _]].
+  unfold mk in Hd. apply in_map_iff in Hd. destruct Hd as [r [<- _]].
+  unfold dd. destruct (s_sph s); [|apply cart_desc_exps].
+  apply dcomb_exps. intros d' Hd'. unfold mk in Hd'. apply in_map_iff in Hd'. destruct Hd' as [c [<- _]].
+  apply cart_desc_exps.
+Qed.
+
 Lemma two_symm_full (blockf : shell F -> shell F -> list (list (list (list F)))) (Ip : gprim -> gprim -> F)
       (basis : list (shell F)) :
-  (forall x y, Ip x y = Ip y x) -> Forall shell_wf basis ->
+  (forall sa sb g1 g2, In sa basis -> In sb basis -> In (g_a g1) (s_exps sa) -> In (g_a g2) (s_exps sb) ->
+     Ip g1 g2 = Ip g2 g1) ->
+  Forall shell_wf basis ->
   (forall sa sb, In sa basis -> In sb basis ->
      pblockF blockf (prep K sa) (prep K sb) = outer (pair_spec Ip) (descr sa) (descr sb)) ->
   two_symm_integral K 0 (fadd K) (fmul K) blockf basis None
@@ -918,7 +954,10 @@ Lemma two_symm_full (blockf : shell F -> shell F -> list (list (list (list F))))
 Proof.
   intros Hsym Hwf H. rewrite (two_symm_of_blocks blockf Ip basis H). rewrite descr_basis_mk.
   unfold outer. apply (two_symm_blocks_full (pair_spec Ip)).
-  - intros a b. now apply pair_spec_sym.
+  - intros i j a b Hi Hj Ha Hb. apply pair_spec_sym_on. intros t1 t2 H1 H2.
+    apply (Hsym (nth i basis dshell) (nth j basis dshell)); try (now apply nth_In).
+    + now apply (descr_exps _ a Ha).
+    + now apply (descr_exps _ b Hb).
   - intros i Hi. apply descr_nonempty. rewrite Forall_forall in Hwf. apply Hwf. now apply nth_In.
 Qed.
 
@@ -930,7 +969,7 @@ Theorem same_function_overlap (basis : list (shell F)) :
   overlap_integral K basis None = outer (pair_spec Iov) (descr_basis basis) (descr_basis basis).
 Proof.
   intros H2 Hwf Hexp. unfold overlap_integral. apply two_symm_full; [|exact Hwf|].
-  - intros x y. apply Imom_sym.
+  - intros sa sb x y _ _ _ _. apply Imom_sym.
   - intros sa sb Ha Hb. rewrite Forall_forall in Hwf.
     apply same_function_pblock_overlap; auto; now apply Hwf.
 Qed.
@@ -1068,6 +1107,45 @@ Theorem same_function_kinetic_blocks (basis : list (shell F)) :
 Proof.
   intros H2 Hok Hexp. unfold kinetic_integral. apply two_symm_of_blocks.
   intros sa sb Ha Hb. rewrite Forall_forall in Hok. apply same_function_pblock_kinetic; auto.
+Qed.
+
+(* ---- symmetry of the kinetic pairing: integration by parts on both sides ---- *)
+Lemma Sfun_swap Ax Bx alpha beta i j : Sfun K Bx Ax beta alpha j i = Sfun K Ax Bx alpha beta i j.
+Proof.
+  pose proof (mom1_sym 0 Bx Ax beta alpha 0 j i) as E. unfold mom1 in E. unfold Sfun.
+  unfold T3 in *. rewrite !(S3_0_indep_c K) in E. rewrite !(S3_0_indep_c K). exact E.
+Qed.
+
+Lemma dk1_swap0 Ax Bx alpha beta i j : dk1 Bx Ax beta alpha 0 j i = dk1 Ax Bx alpha beta 0 i j.
+Proof. unfold dk1. cbn [iterop]. apply Sfun_swap. Qed.
+
+Lemma dk1_swap2 Ax Bx alpha beta i j : psum K alpha beta <> 0 -> 1 + 1 <> 0 ->
+  dk1 Bx Ax beta alpha 2 j i = dk1 Ax Bx alpha beta 2 i j.
+Proof.
+  intros Hp H2. unfold dk1.
+  rewrite <- (ibp_iter K Kf Ax Bx alpha beta Hp H2 2 i j).
+  cbn [iterop]. unfold Bop, negA. rewrite !(Sfun_swap Ax Bx alpha beta). ring.
+Qed.
+
+Lemma Ikin_sym g1 g2 : psum K (g_a g1) (g_a g2) <> 0 -> 1 + 1 <> 0 -> Ikin g1 g2 = Ikin g2 g1.
+Proof.
+  intros Hp H2. unfold Ikin, Ider. cbn [cx cy cz fst snd].
+  rewrite <- !(dk1_swap0 (g_x g1) (g_x g2)), <- !(dk1_swap0 (g_y g1) (g_y g2)), <- !(dk1_swap0 (g_z g1) (g_z g2)).
+  rewrite <- (dk1_swap2 (g_x g1) (g_x g2) _ _ _ _ Hp H2), <- (dk1_swap2 (g_y g1) (g_y g2) _ _ _ _ Hp H2),
+          <- (dk1_swap2 (g_z g1) (g_z g2) _ _ _ _ Hp H2).
+  reflexivity.
+Qed.
+
+(* (ii) kinetic_energy_integral = table of the pairings Ikin over the same descriptor list, same order *)
+Theorem same_function_kinetic (basis : list (shell F)) :
+  1 + 1 <> 0 -> Forall shell_wf basis ->
+  (forall sa sb, In sa basis -> In sb basis -> exps_ok sa sb) ->
+  kinetic_integral K basis None = outer (pair_spec Ikin) (descr_basis basis) (descr_basis basis).
+Proof.
+  intros H2 Hwf Hexp. unfold kinetic_integral. apply two_symm_full; [|exact Hwf|].
+  - intros sa sb g1 g2 Ha Hb H1 H3. apply Ikin_sym; [|exact H2]. now apply (Hexp sa sb Ha Hb).
+  - intros sa sb Ha Hb. rewrite Forall_forall in Hwf.
+    apply same_function_pblock_kinetic; auto; now apply Hwf.
 Qed.
 
 End P.
